@@ -650,6 +650,11 @@ class Ev:
         if dk.startswith("Ctor"):
             return Sym("ctor", d.rsplit("::", 1)[-1])
         if dk.startswith("Const") or dk.startswith("AssocConst"):
+            hc = self.hooks.get("@const")
+            if hc is not None:
+                v_ = hc(d)
+                if v_ is not None:
+                    return v_
             r = self.facts.fn(d)
             if r is not None and depth < self.max_depth:
                 return self.eval(r["body"], {}, depth + 1)
@@ -772,6 +777,9 @@ class Ev:
             if op in ("Eq", "Ne", "Lt", "Le", "Gt", "Ge"):
                 lt = (e["l"].get("ty") or "").replace("&", "").strip()
                 return cmp_sym(op, l, r, lt in INT_TYPES)
+        if op in ("Eq", "Ne") and is_lit(l) and is_lit(r):
+            same = vkey(l) == vkey(r)
+            return Sym("bool", "true" if (same == (op == "Eq")) else "false")
         if op in ("Eq", "Ne") and any(isinstance(v, Sym) and v.tag[:2] == ("ctor", "None") for v in (l, r)) and \
                 not all(isinstance(v, Sym) and v.tag[0] == "ctor" for v in (l, r)):
             # `x == None` is `x.is_none()`
@@ -1667,6 +1675,8 @@ class Ev:
                     return False
                 return None if any(r is None for r in res) else True
             return None
+        if k == "lit" and pat.get("lk") == "str" and is_lit(val) and isinstance(val.tag[1], str):
+            return val.tag[1] == pat["v"]
         if k == "lit":
             if isinstance(val, Poly) and val.const_value() is not None and pat.get("lk") in ("int", "float"):
                 c = F(str(pat["v"]).replace("_", ""))
@@ -1897,6 +1907,8 @@ class Ev:
             if adt.endswith("Dual2"):
                 fields["dual2"] = Poly({}, 2)
             return Rec(adt, fields)
+        if "HashMap" in d and last == "from" and len(args) == 1 and isinstance(args[0], Tup) and all(isinstance(x, Tup) and len(x.items) == 2 for x in args[0].items):
+            return Sym("ctor", "HashMapLit", args[0])          # a map written out as (key, value) pairs
         if d.endswith("Vec::<T>::new") and not args:
             return Tup([])
         if (d.endswith("Arc::<T>::new") or d.endswith("Box::<T>::new")) and len(args) == 1:
@@ -1969,6 +1981,39 @@ class Ev:
         for suffix, h in self.hooks.items():
             if not suffix.startswith("@") and d.endswith(suffix):
                 return h(self, [recv] + args, e)
+        if isinstance(recv, Sym) and recv.tag[:2] == ("ctor", "HashMapLit") and m in ("get", "contains_key") and len(args) == 1:
+            # look-up of a literal key in a map written out as pairs with literal keys: the later of equal keys wins, as on insertion
+            pairs = recv.tag[2].items
+            if is_lit(args[0]) and all(is_lit(p_.items[0]) for p_ in pairs):
+                hit = [p_.items[1] for p_ in pairs if vkey(p_.items[0]) == vkey(args[0])]
+                if m == "contains_key":
+                    return Sym("bool", "true" if hit else "false")
+                return Sym("ctor", "Some", hit[-1]) if hit else Sym("ctor", "None")
+            return Sym("lookup", vkey(recv), vkey(args[0]))
+        if isinstance(recv, (Tup, Seq)) and m in ("find", "position", "any", "all") and len(args) == 1 and isinstance(args[0], Clo) and \
+                (isinstance(recv, Tup) or isinstance(getattr(recv, "finite", None), list)):
+            # a search over a list written out in full, with a test that evaluates to a constant on every element, is decided
+            items = recv.items if isinstance(recv, Tup) else recv.finite
+            res = []
+            for it_ in items:
+                env2 = dict(args[0].env)
+                self.bind(args[0].params[0], it_, env2)
+                b_ = self.collapse(self.eval(args[0].body, env2, depth))
+                res.append(b_.tag[1] if isinstance(b_, Sym) and b_.tag[:1] == ("bool",) else None)
+            if None not in res:
+                hits = [i_ for i_, r_ in enumerate(res) if r_ == "true"]
+                if m == "find":
+                    return Sym("ctor", "Some", items[hits[0]]) if hits else Sym("ctor", "None")
+                if m == "position":
+                    return Sym("ctor", "Some", Poly.const(hits[0])) if hits else Sym("ctor", "None")
+                if m == "any":
+                    return Sym("bool", "true" if hits else "false")
+                return Sym("bool", "true" if len(hits) == len(items) else "false")
+        if isinstance(recv, Tup) and m in ("iter", "into_iter") and not args and self.hooks.get("@const") is not None:
+            sq = Seq(recv, lambda idx, recv=recv: recv.items[int(idx.const_value())] if idx.const_value() is not None and 0 <= idx.const_value() < len(recv.items)
+                     else Sym("at", vkey(recv), idx.key()))
+            sq.finite = list(recv.items)
+            return sq
         if m == "next" and not args and strip_refs(e["recv"]).get("k") == "path" and strip_refs(e["recv"]).get("res") == "local" and not self.loops and \
                 isinstance(recv, (Sym, Seq)) and not (isinstance(recv, Sym) and recv.tag[:1] == ("ctor",)):
             # pulling from a local iterator: the k-th pull is item k of the sequence it was created over (None once exhausted); the iterator advances
@@ -2442,6 +2487,10 @@ def canon_seq(seq):
         a, b = poly_from_key(src[2]), poly_from_key(src[3])
         return Seq(Sym("range", Poly.const(0).key(), (b - a).key()), lambda idx, f0=seq.fn, a=a: f0(idx + a), seq.enumerated)
     return seq
+
+
+def is_lit(v):
+    return isinstance(v, Sym) and v.tag[:1] == ("lit",) and len(v.tag) == 2
 
 
 def concat_sym(keys):
